@@ -1246,6 +1246,18 @@ func c05r1(c *core.Ctx) {
 			})
 		})
 	}
+	// reflect.Value.MapKeys returns the keys "in unspecified order": a map-ordered slice like any other
+	for _, imp := range p.Pkg("object").Types.Imports() {
+		if imp.Path() == "reflect" {
+			if tn, ok := imp.Scope().Lookup("Value").(*types.TypeName); ok {
+				if nt, ok := tn.Type().(*types.Named); ok {
+					if m := core.Method(nt, "MapKeys"); m != nil {
+						k.sources[m] = "reflect.Value.MapKeys"
+					}
+				}
+			}
+		}
+	}
 	// pass 2: call sites of functions that return map-ordered slices (to a fixpoint)
 	done := map[string]bool{}
 	for round := 0; round < 4; round++ {
